@@ -127,6 +127,7 @@ type c05run struct {
 	class           string
 	oracleOn        bool
 	alwaysSelfCheck bool
+	live            bool // the archive of a real run: the invariant is demanded unconditionally
 }
 
 func c05newRun(class string) *c05run {
@@ -400,7 +401,7 @@ func (r *c05run) oracle(o c05op, before, mid, after []*marchive.CompressedModelS
 	}
 	// invariant: after every operation of the explorer's language (no raw force); consistency is only
 	// needed once something has been forced
-	if !r.anyRaw && (r.consistent || !r.anyForce) {
+	if r.live || (!r.anyRaw && (r.consistent || !r.anyForce)) {
 		es := make([]c05entry, len(after))
 		for i, s := range after {
 			es[i] = c05entryOf(s)
@@ -530,8 +531,12 @@ func c05randomOps(rng *prng, n, d int, consistent bool, pForce, pRaw float64) []
 		return b
 	}
 	pool := make([][]bool, poolN)
+	sharePrefix := size > 64 && rng.chance(0.5)
 	for i := range pool {
 		pool[i] = randBits()
+		if sharePrefix && i > 0 {
+			copy(pool[i][:64], pool[0][:64]) // keys that differ only beyond the first 64-bit word
+		}
 	}
 	grid := 1 + rng.intn(5)
 	style := rng.intn(6)
@@ -570,9 +575,13 @@ func c05randomOps(rng *prng, n, d int, consistent bool, pForce, pRaw float64) []
 	ops := make([]c05op, n)
 	for i := range ops {
 		var bits []bool
-		if rng.intn(10) == 0 {
+		switch rng.intn(12) {
+		case 0:
 			bits = randBits()
-		} else {
+		case 1:
+			// same words, different declared size: IsEquivalentTo must say "different"
+			bits = append(append([]bool{}, pool[rng.intn(len(pool))]...), false)
+		default:
 			bits = pool[rng.intn(len(pool))]
 		}
 		var vec []float64
@@ -720,6 +729,67 @@ func c05blocks(maxLen int) {
 	rec([][2]int{})
 }
 
+// c05witnesses replays, on the real archive, the witnesses of the *_refuted theorems of Properties/C05.v (they also
+// go through the correspondence as ordinary sequence cases) and records whether the real code shows the same effect.
+func c05witnesses() {
+	A, B := []bool{true, false}, []bool{false, true}
+	mk := func(kind int, vec []float64, bits []bool) c05op {
+		return c05op{kind: kind, cand: c05cand{vec: vec, bits: bits}}
+	}
+	run := func(name string, ops []c05op, confirmed func(r *c05run, last c05obs) bool) {
+		r := c05newRun("witness_" + name)
+		r.alwaysSelfCheck = true
+		var obs []c05obs
+		for _, o := range ops {
+			obs = append(obs, r.apply(o))
+		}
+		if confirmed(r, obs[len(obs)-1]) {
+			c05stats["witness_confirmed_"+name]++
+		} else {
+			c05stats["witness_NOT_confirmed_"+name]++
+		}
+		c05emitSeq(r, obs)
+	}
+	hasDup := func(r *c05run) bool {
+		seen := map[string]bool{}
+		for _, s := range r.arch.Archive() {
+			a := c05entryOf(s).acts
+			if seen[a] {
+				return true
+			}
+			seen[a] = true
+		}
+		return false
+	}
+	hasDominated := func(r *c05run) bool {
+		ss := r.arch.Archive()
+		for _, x := range ss {
+			for _, y := range ss {
+				if c05dominates(x.Variables, y.Variables) {
+					return true
+				}
+			}
+		}
+		return false
+	}
+	// C05_needs_consistency_refuted: inconsistent stream, forced store => two members with one action set
+	run("needs_consistency_dup", []c05op{mk(c05Offer, []float64{3, 0}, B), mk(c05Offer, []float64{0, 5}, A), mk(c05OfferForce, []float64{4, 1}, A)},
+		func(r *c05run, _ c05obs) bool { return hasDup(r) })
+	// C05_front_needs_consistency_refuted: a Pareto-optimal candidate refused as duplicate
+	run("needs_consistency_front", []c05op{mk(c05Offer, []float64{0, 1}, A), mk(c05Offer, []float64{1, 0}, A)},
+		func(r *c05run, last c05obs) bool {
+			return len(last.Res) == 1 && last.Res[0] == uint(marchive.RejectedWithDuplicateEntryDetected) && r.arch.Len() == 1
+		})
+	// C05_raw_force_refuted
+	run("raw_force_dominated", []c05op{mk(c05Offer, []float64{1, 1}, A), mk(c05ForceRaw, []float64{0, 0}, B)},
+		func(r *c05run, _ c05obs) bool { return hasDominated(r) })
+	run("raw_force_dup", []c05op{mk(c05Offer, []float64{1, 1}, A), mk(c05ForceRaw, []float64{1, 1}, A)},
+		func(r *c05run, _ c05obs) bool { return hasDup(r) })
+	// C05_self_check_incomplete_refuted: IsNonDominant() = true although the last entry dominates the first
+	run("self_check_incomplete", []c05op{mk(c05Offer, []float64{1}, A), mk(c05ForceRaw, []float64{0}, B)},
+		func(r *c05run, last c05obs) bool { return hasDominated(r) && last.Nd != nil && *last.Nd == "T" })
+}
+
 func runC05(args []string) {
 	tier := "quick"
 	if len(args) > 0 {
@@ -773,6 +843,7 @@ func runC05(args []string) {
 		c05runSeq("dimension_mismatch", ops)
 	}
 
+	c05witnesses()
 	c05live(tier, rng)
 
 	c05stats["oracle_failures"] = c05oracleCount
